@@ -632,7 +632,7 @@ def explicit(sc, res):
 
 def build_scenarios(tier, rng):
     scs = fixed_scenarios()
-    nrand = 260 if tier == 'quick' else 2600
+    nrand = 260 if tier == 'quick' else 5000
     for i in range(nrand):
         scs.append({'name': 'rnd%d' % i, 'nodes': random_nodes(rng),
                     'gen': {'seed': rng.randrange(1 << 31), 'n': rng.choice([12, 20, 30]), 'profile': ''}})
@@ -668,8 +668,8 @@ def run_check(prop, tier, seed, replay=None):
     exh_pairs = []
     if tier == 'thorough' and not replay:
         # bounded-exhaustive: every op sequence up to length 3 over the full alphabets of the two
-        # 3-node layouts, and up to length 4 over a 12-letter sub-alphabet
-        small = [0, 1, 3, 4, 7, 9, 11, 12, 14, 15, 18, 19]
+        # 3-node layouts, and up to length 4 over a 15-letter sub-alphabet
+        small = [0, 1, 2, 3, 4, 7, 8, 9, 11, 12, 14, 15, 16, 18, 19]
         for layout in EXH_LAYOUTS:
             e = exh_scenarios(layout, 3) + [s for s in exh_scenarios(layout, 4, small) if s['name'].count('.') == 3]
             for k, s in enumerate(e):
